@@ -2,6 +2,7 @@
 
 from __future__ import annotations
 
+import copy
 import time
 import tracemalloc
 import warnings
@@ -384,7 +385,8 @@ class VariationalWassersteinDistance(darsia.EMD):
         """dict: options for the AMG solver"""
 
         # Allow to overwrite default options - use pyamg interface.
-        user_defined_amg_options = self.options.get("amg_options", {})
+        # NOTE: pyamg extends per-level lists in place; do not hand over the user's.
+        user_defined_amg_options = copy.deepcopy(self.options.get("amg_options", {}))
         self.amg_options.update(user_defined_amg_options)
 
     def setup_amg_solver(self, matrix: sps.csc_matrix) -> None:
